@@ -836,7 +836,8 @@ where
     // that anything remembered from the honest statement is still warm)
     {
         let (sk, pk) = rand_keypair::<CS>(h);
-        let lens: Vec<usize> = if thorough { vec![33, 64, 65, 100, 300] } else { vec![33, 100] };
+        // (70000: also beyond 2^16 octets, for the disclosed message as well as for both headers)
+        let lens: Vec<usize> = if thorough { vec![33, 64, 65, 100, 300, 70000] } else { vec![33, 100, 70000] };
         for hl in lens {
             let mut msgs = distinct_msgs(h, 3);
             msgs[1] = h.rng.bytes(hl);
